@@ -99,9 +99,10 @@ def _pad_face_connections(
 
     # Detect all the axes we have to deal with during padding
     # all the axes defined in the connections + the axes of the padding width should give all axes we need to iterate over
-    pad_axes = list(
-        set(_get_all_connection_axes(connections, facedim) + list(padding_width.keys()))
+    axes_to_pad = set(_get_all_connection_axes(connections, facedim)) | set(
+        padding_width.keys()
     )
+    pad_axes = [axname for axname in grid.axes if axname in axes_to_pad]
 
     padding_width = {axname: padding_width.get(axname, (0, 0)) for axname in pad_axes}
 
